@@ -29,7 +29,7 @@ ASSUMPTIONS = [
 ]
 ANCHORS = ["dagrt.expression:match", "dagrt.expression:_ExtendedUnifier.map_call",
            "dagrt.expression:_ExtendedUnifier.map_modulo_identity"]
-MIN_NONTRIVIAL = {"quick": 5000, "thorough": 60000}
+MIN_NONTRIVIAL = {"quick": 5000, "thorough": 251999}
 REQUIRED_COUNTERS = {"quick": ["matches_returned", "match_points_evaluated", "no_match_valueerror"],
                      "thorough": ["matches_returned", "match_points_evaluated", "no_match_valueerror"]}
 SHARD_TIMEOUT = {"quick": 900, "thorough": 3000}
@@ -40,7 +40,7 @@ KWS = ["k", "m"]
 
 
 def plan(tier, seed):
-    per = 700 if tier == "quick" else 9000
+    per = 700 if tier == "quick" else 54000
     return [{"seed": f"C17:{seed}:{k}", "count": per} for k in range(16)]
 
 
@@ -92,6 +92,55 @@ def subst(e, sigma):
     return [k] + [subst(x, sigma) for x in e[1:]]
 
 
+def occurrences(e, name):
+    """Number of places (variable or function position) where `name` occurs."""
+    k = e[0]
+    if k in ("num", "cnum", "bool"):
+        return 0
+    if k == "var":
+        return int(e[1] == name)
+    if k == "call":
+        return (int(e[1] == name) + sum(occurrences(x, name) for x in e[2])
+                + sum(occurrences(v, name) for v in (e[3] if len(e) > 3 else {}).values()))
+    if k == "cmp":
+        return occurrences(e[2], name) + occurrences(e[3], name)
+    return sum(occurrences(x, name) for x in e[1:])
+
+
+def subst_all_but_one(e, sigma, name, skip, counter=None):
+    """Like subst, but the skip-th occurrence of `name` keeps its template spelling (a near miss: every
+    other occurrence of the free symbol was replaced)."""
+    if counter is None:
+        counter = [0]
+    k = e[0]
+    if k in ("num", "cnum", "bool"):
+        return e
+    if k == "var":
+        if e[1] == name:
+            counter[0] += 1
+            if counter[0] - 1 == skip:
+                return e
+        return sigma.get(e[1], e)
+    if k == "call":
+        fn = e[1]
+        keep = False
+        if fn == name:
+            counter[0] += 1
+            keep = counter[0] - 1 == skip
+        if fn in sigma and not keep:
+            b = sigma[fn]
+            if b[0] != "var":
+                raise ValueError("function symbol bound to a non-symbol")
+            fn = b[1]
+        return ["call", fn, [subst_all_but_one(x, sigma, name, skip, counter) for x in e[2]],
+                {n: subst_all_but_one(v, sigma, name, skip, counter)
+                 for n, v in (e[3] if len(e) > 3 else {}).items()}]
+    if k == "cmp":
+        return ["cmp", e[1], subst_all_but_one(e[2], sigma, name, skip, counter),
+                subst_all_but_one(e[3], sigma, name, skip, counter)]
+    return [k] + [subst_all_but_one(x, sigma, name, skip, counter) for x in e[1:]]
+
+
 def shuffle_ac(rng, e):
     k = e[0]
     if k in ("num", "var", "cnum", "bool"):
@@ -137,7 +186,7 @@ def perturb(rng, e):
 
 def gen_case(rng):
     cls = rng.choice(["instance", "instance", "instance", "perturbed", "independent", "identity",
-                      "derived-free"])
+                      "derived-free", "all-but-one-occurrence"])
     depth = rng.choice([1, 2, 2, 3])
     if cls == "identity":
         a, b, c = rng.sample(VARS[:5], 3)
@@ -153,10 +202,20 @@ def gen_case(rng):
         return {"cls": cls, "template": t, "target": e, "free": sorted(free), "bound": None,
                 "pre": None, "as_str": rng.random() < 0.3}
     t = gen_term(rng, depth)
+    if cls == "all-but-one-occurrence" and rng.random() < 0.6:
+        # one symbol (function or variable) used in several terms of a sum / product
+        F = rng.choice(FUNCS)
+        terms = []
+        for _ in range(rng.choice([2, 2, 3])):
+            c = ["call", F, [gen_term(rng, rng.choice([0, 0, 1])) for _ in range(rng.choice([1, 1, 2]))], {}]
+            q = rng.random()
+            terms.append(c if q < 0.4 else ["*", ["num", rng.choice([2, 3])], c] if q < 0.7 else
+                         ["*", ["var", rng.choice(VARS)], c] if q < 0.85 else ["+", c, ["var", rng.choice(VARS)]])
+        t = [rng.choice(["+", "+", "*"])] + terms
     tv = sorted(variables(t))
     fs = sorted(fsyms(t))
     free = [v for v in tv if rng.random() < 0.6]
-    if fs and rng.random() < 0.3:
+    if fs and rng.random() < (0.7 if cls == "all-but-one-occurrence" else 0.3):
         free += rng.sample(fs, rng.randint(1, len(fs)))
     sigma0 = {}
     for v in free:
@@ -173,6 +232,16 @@ def gen_case(rng):
             e = gen_term(rng, depth)
         if cls == "perturbed":
             e = perturb(rng, e)
+        if cls == "all-but-one-occurrence":
+            multi = [v for v in free if occurrences(t, v) >= 2]
+            if multi:
+                v = rng.choice(sorted(multi))
+                try:
+                    e = subst_all_but_one(t, sigma0, v, rng.randrange(occurrences(t, v)))
+                    if rng.random() < 0.3:
+                        e = shuffle_ac(rng, e)
+                except ValueError:
+                    pass
     bound = None
     freearg = sorted(set(free))
     if cls == "derived-free":
